@@ -19,6 +19,7 @@ RULE = ('Generated programs (scope-shape, syntax-rich and hoist-dense profiles) 
         'configuration the multiset of identifiers of the output equals that of the un-renamed baseline. The exec statement trigger is exercised '
         'on the 2.7 worker. Non-trivial: without the trigger the same program would have been changed by the name-touching options. '
         'Distinct = sha256(source, options).')
+RULE += ' Star imports are absolute and relative, with and without a module name; a quarter of the name triggers come with a `global <name>` declaration of the trigger somewhere in the module (a declaration binds nothing: still the builtin).'
 ASSUMPTIONS = ['whether the planted name is the builtin is decided by the independent resolver']
 
 NT = ('rename_locals', 'rename_globals', 'hoist_literals')
